@@ -1,15 +1,6 @@
-"""C06 - see DESIGN.md section 4."""
-import endpoint
-
-PROP = "C06"
-QUICK = ["qos_c311", "qos_c50_rm", "qos_offline", "qos_server"]
-THOROUGH = ["qos_c311", "qos_c311_auto", "qos_c50", "qos_c50_rm", "qos_offline", "qos_server"]
-
-
-def nontrivial(n):
-    return n['call']['pkt']['kind'] in ('publish','pubrel','puback','pubrec','pubcomp') or (n['call']['pkt']['kind']=='connack' and n['call']['pkt']['sp'])
+"""C06 - connection-level property decided on Endpoint.tla; see lib/endpoint_props.py and DESIGN.md section 4."""
+import endpoint_props
 
 
 def main(tier, replay=None):
-    return endpoint.run(PROP, tier, QUICK, THOROUGH, nontrivial, replay=replay,
-                        extra_rule="a QoS>0 PUBLISH/PUBREL is sent, acknowledged, erased or re-sent")
+    return endpoint_props.main("C06", tier, replay)
